@@ -70,6 +70,11 @@ fn main() {
                     Outcome { report: r, rule: "aborted".into(), exhaustive: false, bounds: Value::Null }
                 }
             };
+            let mut o = o;
+            // what the outputs' Display impls showed for the results this run converted (drv.rs, rendering)
+            for (k, n, ex) in drv::render_issues() {
+                o.report.dev(format!("{id}/{k}"), "render", || serde_json::json!({"kind": "render", "count": n, "detail": ex}));
+            }
             let wall = t0.elapsed().as_secs_f64();
             let j = o.report.to_json(id, tier, &o.rule, o.exhaustive, o.bounds, wall);
             if std::fs::write(&out, serde_json::to_string_pretty(&j).unwrap_or_default()).is_err() {
